@@ -250,11 +250,25 @@ def rule_pa_case(cx, rep, port):
     # statement keywords themselves: locate_statements builds (?i)... / 'ig'
     p = cx.port(port)
     ls = p.func(cx.engine_mod(port), 'locate_statements')
-    t = node_text(ls, 3000)
+    # ... in locate_statements itself or in a module function it calls
+    scope = [ls]
+    for c_ in walk_no_nested(ls):
+        if isinstance(c_, ast.Call) and isinstance(c_.func, ast.Name):
+            h_ = p.func(cx.engine_mod(port), c_.func.id, required=False)
+            if h_ is not None and h_ not in scope:
+                scope.append(h_)
+    t = ' '.join(node_text(f_, 3000) for f_ in scope)
     ok = ("'(?i)(?:^| ){}(?= )'" in t) if port == 'py' else ("'(?= )', 'ig')" in t and "'(?:^| )'" in t)
-    rep.decide(ok, 'locate_statements pattern', ls, 'statement keywords: case-insensitive, preceded by start/space, followed by a space', 'the statement pattern is no longer case-insensitive with word boundaries on both sides')
-    okspace = any(isinstance(c, ast.Call) and [const_value(a) for a in c.args][-2:] == [' ', ' *'] and ((isinstance(c.func, ast.Attribute) and c.func.attr == 'replace') or dotted(c.func) == 'replace_all') for c in ast.walk(ls))
-    rep.decide(okspace, 'multi-word keywords', ls, 'spaces inside multi-word keywords match any number of spaces', 'multi-word keywords no longer tolerate repeated spaces')
+    builds = [c for f_ in scope for c in ast.walk(f_) if isinstance(c, ast.Call) and (dotted(c.func) in ('RegExp', 're.compile', 're.finditer', 're.search', 're.findall') or (isinstance(c.func, ast.Attribute) and c.func.attr == 'format' and '{}' in node_text(c.func.value, 200)))]
+    if ok or builds:
+        rep.decide(ok, 'locate_statements pattern', ls, 'statement keywords: case-insensitive, preceded by start/space, followed by a space', 'the statement pattern is no longer case-insensitive with word boundaries on both sides')
+    else:
+        rep.undecided('locate_statements pattern', ls, 'where locate_statements builds the keyword pattern was not recognised')
+    okspace = any(isinstance(c, ast.Call) and [const_value(a) for a in c.args][-2:] == [' ', ' *'] and ((isinstance(c.func, ast.Attribute) and c.func.attr == 'replace') or dotted(c.func) == 'replace_all') for f_ in scope for c in ast.walk(f_))
+    if okspace or builds:
+        rep.decide(okspace, 'multi-word keywords', ls, 'spaces inside multi-word keywords match any number of spaces', 'multi-word keywords no longer tolerate repeated spaces')
+    else:
+        rep.undecided('multi-word keywords', ls, 'where locate_statements builds the keyword pattern was not recognised')
 
 
 def rule_pa_withcase(cx, rep, port):
@@ -301,8 +315,21 @@ def rule_pa_groups(cx, rep, port):
     dup = {x for x in flat if flat.count(x) > 1}
     rep.decide(not missing and not dup, 'keyword coverage', (p.files[mod], 0), 'every statement keyword constant is in exactly one group: {}'.format(sorted(flat)), 'keyword constants {} are in no group / {} in several'.format(sorted(missing), sorted(dup)))
     ls = p.func(mod, 'locate_statements')
+    # helpers of locate_statements (module functions it calls, one level) belong to it
+    helpers = []
+    for c_ in walk_no_nested(ls):
+        if isinstance(c_, ast.Call) and isinstance(c_.func, ast.Name):
+            h_ = p.func(mod, c_.func.id, required=False)
+            if h_ is not None and h_ is not ls and h_ not in helpers and any(isinstance(x, (ast.Raise, ast.Call)) and 'More than one' in node_text(x, 300) or (isinstance(x, ast.Call) and (dotted(x.func) or '').endswith(('finditer', 'exec', 'matchAll', 'search'))) for x in ast.walk(h_)):
+                helpers.append(h_)
     brk = [n for n in ast.walk(ls) if isinstance(n, ast.Break)]
-    rep.decide(len(brk) == 1, 'first match wins', brk[0] if brk else ls, 'within a group the first (longest) matching statement wins', 'locate_statements no longer stops at the first matching statement of a group')
+    inner_loops = [n for n in walk_no_nested(ls) if isinstance(n, (ast.For, ast.While)) and isinstance(getattr(n, 'parent', None), (ast.For, ast.While))]
+    if len(brk) == 1:
+        rep.holds('first match wins', brk[0], 'within a group the first (longest) matching statement wins')
+    elif not brk and inner_loops and not helpers and all(isinstance(l_, ast.For) and not any(isinstance(x, ast.Return) for x in ast.walk(l_)) for l_ in inner_loops):
+        rep.violated('first match wins', inner_loops[0], 'locate_statements no longer stops at the first matching statement of a group')
+    else:
+        rep.undecided('first match wins', ls, 'how locate_statements picks one statement of a group was not recognised ({} break statements)'.format(len(brk)))
     # every blank inside a multi-word keyword stands for "any number of blanks": the translation into a pattern replaces *all* of
     # them (JavaScript's String.replace with a string pattern replaces the first one only)
     flex = []
@@ -320,11 +347,21 @@ def rule_pa_groups(cx, rep, port):
         firsts = [c for c, all_ in flex if not all_]
         rep.decide(not firsts, 'flexible blanks', (firsts or [flex[0][0]])[0], 'every blank of a keyword becomes a flexible blank in its pattern', '`{}` replaces only the first blank of a keyword: in a three-word keyword (LEFT OUTER JOIN, STRICT LEFT JOIN) the second gap accepts exactly one blank, so an extra space or a tab there makes the keyword unrecognised'.format(node_text((firsts or [flex[0][0]])[0], 60)))
     srt = [c for c in walk_no_nested(ls) if isinstance(c, ast.Call) and (dotted(c.func) == 'sorted' or (isinstance(c.func, ast.Attribute) and c.func.attr == 'sort'))]
-    rep.decide(len(srt) == 1, 'order-free location', srt[0] if srt else ls, 'located statements are ordered by position, so clause order is free', 'located statements are not sorted by position')
-    dupchk = [r for r in walk_no_nested(ls) if isinstance(r, ast.Raise)]
+    if len(srt) == 1:
+        rep.holds('order-free location', srt[0], 'located statements are ordered by position, so clause order is free')
+    elif not srt and not helpers:
+        rep.violated('order-free location', ls, 'located statements are not sorted by position')
+    else:
+        rep.undecided('order-free location', ls, 'how the located statements are ordered was not recognised')
+    dupchk = [r for f_ in [ls] + helpers for r in walk_no_nested(f_) if isinstance(r, ast.Raise)]
     def more_than_one(t):
         return isinstance(t, ast.Compare) and len(t.ops) == 1 and isinstance(t.left, ast.Call) and dotted(t.left.func) == 'len' and ((isinstance(t.ops[0], ast.Gt) and const_value(t.comparators[0]) == 1) or (isinstance(t.ops[0], ast.GtE) and const_value(t.comparators[0]) == 2))
-    rep.decide(len(dupchk) == 1 and isinstance(dupchk[0].parent, ast.If) and dupchk[0] in dupchk[0].parent.body and more_than_one(dupchk[0].parent.test), 'duplicate statement', dupchk[0] if dupchk else ls, 'a statement occurring twice is a parsing error', 'a repeated statement is no longer rejected')
+    if len(dupchk) == 1 and isinstance(dupchk[0].parent, ast.If) and dupchk[0] in dupchk[0].parent.body and more_than_one(dupchk[0].parent.test):
+        rep.holds('duplicate statement', dupchk[0], 'a statement occurring twice is a parsing error')
+    elif not dupchk:
+        rep.violated('duplicate statement', ls, 'a repeated statement is no longer rejected')
+    else:
+        rep.undecided('duplicate statement', dupchk[0], 'the condition under which a repeated statement is rejected (`{}`) was not recognised'.format(node_text(getattr(dupchk[0].parent, 'test', dupchk[0]), 60)))
     # separate_actions: join subtypes collapse to JOIN
     sa = p.func(mod, 'separate_actions')
     t = node_text(sa, 6000)
